@@ -274,7 +274,7 @@ impl<'a> BootInformation<'a> {
     pub fn elf_sections(&self) -> Option<ElfSectionIter> {
         let tag = self.get_tag::<ElfSectionsTag>();
         tag.map(|t| {
-            assert!((t.entry_size() * t.shndx()) <= t.header().size);
+            assert!(u64::from(t.entry_size()) * u64::from(t.shndx()) <= u64::from(t.header().size));
             t.sections()
         })
     }
